@@ -385,8 +385,70 @@ sys.exit(0)
 """
 
 
+SCALE_REPLAY = """
+from decimal import Decimal
+p, q = {pc}, {qc}
+S, T = {sc}, {tc}
+vp = float(p.base) ** p.exponent if p.base else 1.0
+vq = float(q.base) ** q.exponent if q.base else 1.0
+bad = []
+for m in (3.0, -2.5, 1.0, 0.0, 250.0):
+    got = (m * (p * S)).in_unit(q * T)
+    want = ((m * vp) * S).in_unit(T).magnitude / vq
+    print(m, p * S, '->', got, ' through the unprefixed units:', want)
+    if got.unit is not (q * T) or abs(got.magnitude - want) > 1e-9 * (abs(want) + 1):
+        bad.append((m, got.magnitude, want))
+if bad:
+    print('REPRODUCED: a prefixed scale does not mean prefix factor times the scale', bad); sys.exit(1)
+sys.exit(0)
+"""
+
+
+def scale_worker(task: Tuple) -> Dict[str, Any]:
+    """Prefixed units whose conversion has an offset (temperature scales): m * (p*S) into q*T must be
+    (m * value(p)) * S into T, divided by value(q) -- also when p and q are the same prefix object."""
+    families.boot()
+    n_ = ns()
+    import measured
+    from measured import Quantity
+
+    acc = work.Acc()
+    absz = lambda e: z3.If(e >= 0, e, -e)
+    mv = var("float", "m")
+    m = real(mv)
+    with symnum.Shims():
+        for (pc, qc, sc, tc) in task[1]:
+            p, q, S, T = (eval(c, n_) for c in (pc, qc, sc, tc))
+            vp, vq = prefix_value(p)[0], prefix_value(q)[0]
+            label = f"{families.show(p)}{families.show(S)}->{families.show(q)}{families.show(T)}"
+
+            def fn() -> Any:
+                return (Quantity(mk("float", mv), p * S).in_unit(q * T),
+                        Quantity(mk("float", mv) * float(vp), S).in_unit(T))
+
+            ex = explore(fn, max_paths=8)
+            acc.explored(ex)
+            for i, pth in enumerate(ex.paths):
+                key = (label, i)
+                if pth.exc is not None:
+                    acc.ob("sat", f"{label}:raises-{pth.outcome}", key)
+                    acc.out["viol"].append((f"C11:scale:{label}:raises", f"{label} raises {pth.outcome}",
+                                            families.REPLAY_IMPORTS + SCALE_REPLAY.format(pc=pc, qc=qc, sc=sc, tc=tc)))
+                    continue
+                got, base = pth.result
+                want = real(term(base.magnitude)) / symnum.q(vq)
+                goal = z3.And(absz(real(term(got.magnitude)) - want) <= symnum.q(Fraction(1, 10 ** 9)) * (absz(want) + 1),
+                              z3.BoolVal(got.unit is (q * T)))
+                st, _ = acc.P.check(pth.cond, z3.Not(goal))
+                acc.ob("unsat" if st == "unsat" else ("unknown" if st == "unknown" else "sat"), f"{label}:prefixed-scale", key)
+                if st == "sat":
+                    acc.out["viol"].append((f"C11:scale:{label}", f"{label}: m*(p*S) into q*T is not (m*value(p))*S into T "
+                                            f"over value(q)", families.REPLAY_IMPORTS + SCALE_REPLAY.format(pc=pc, qc=qc, sc=sc, tc=tc)))
+    return acc.finish()
+
+
 def worker(task: Tuple) -> Dict[str, Any]:
-    return {"key": key_worker, "exp": exponent_worker, "value": value_worker}[task[0]](task)
+    return {"key": key_worker, "exp": exponent_worker, "value": value_worker, "scale": scale_worker}[task[0]](task)
 
 
 def tasks_for(tier: str) -> List[Tuple]:
@@ -407,6 +469,12 @@ def tasks_for(tier: str) -> List[Tuple]:
     items = [(pc, uc, "float") for pc in pexprs for uc in units]
     items += [(pc, uc, k) for pc in pexprs[::4] for uc in units[::3] for k in ("int", "dec")]
     tasks += [("value", ch) for ch in par.chunks(items, 28)]
+    # prefixed temperature scales (conversions with an offset), same and different prefixes
+    scales = ["measured.si.Celsius", "measured.si.Kelvin", "measured.us.Fahrenheit", "measured.us.Rankine"]
+    prefs = ["measured.si.Kilo", "measured.si.Milli", "measured.iec.Kibi"]
+    sitems = [(pc, qc, sc, tc) for sc in scales for tc in scales if sc != tc
+              for pc in prefs for qc in prefs if (pc == qc or tier == "thorough" or (pc, qc) == (prefs[0], prefs[1]))]
+    tasks += [("scale", ch) for ch in par.chunks(sitems, 8)]
     return tasks
 
 
